@@ -930,3 +930,264 @@ Proof.
            assert (k1 = []) by (eapply last_only_terminal; eauto). subst k1. rewrite F1' in D2. discriminate.
       * apply D3. rewrite E1. reflexivity.
 Qed.
+
+(* ------------------------------------------------------------------ thread_enabled is sound: an enabled thread can step *)
+Definition NoDupEm (s : state) : Prop := nodupE (emitters s) = true.
+
+Lemma memE_remE x y l : memE x (remE y l) = negb (Nat.eqb y x) && memE x l.
+Proof.
+  unfold remE, memE. induction l as [|a l IH]; simpl; [rewrite andb_false_r; auto|].
+  destruct (Nat.eqb y a) eqn:Eya; simpl.
+  - rewrite IH. apply Nat.eqb_eq in Eya. subst a. destruct (Nat.eqb y x) eqn:Eyx; simpl; auto.
+    rewrite Nat.eqb_sym, Eyx. reflexivity.
+  - rewrite IH. destruct (Nat.eqb x a) eqn:Exa; simpl; auto. apply Nat.eqb_eq in Exa. subst a. rewrite Eya. reflexivity.
+Qed.
+Lemma nodupE_remE y l : nodupE l = true -> nodupE (remE y l) = true.
+Proof.
+  induction l as [|a l IH]; simpl; auto. intros H. apply andb_true_iff in H as [H1 H2].
+  unfold remE in *. simpl. destruct (Nat.eqb y a) eqn:E; simpl; auto.
+  fold (remE y l). rewrite memE_remE. apply negb_true_iff in H1. rewrite H1, andb_false_r. simpl. apply IH; auto.
+Qed.
+Lemma memE_app x a b : memE x (a ++ b) = memE x a || memE x b.
+Proof. unfold memE. apply existsb_app. Qed.
+Lemma nodupE_app_one l e : nodupE l = true -> memE e l = false -> nodupE (l ++ [e]) = true.
+Proof.
+  induction l as [|a l IH]; simpl; auto. intros H Hm. apply andb_true_iff in H as [H1 H2].
+  apply orb_false_iff in Hm as [Hm1 Hm2]. rewrite IH by auto. rewrite andb_true_r.
+  rewrite memE_app. apply negb_true_iff in H1. rewrite H1. simpl. rewrite Nat.eqb_sym, Hm1. reflexivity.
+Qed.
+
+Lemma NoDupEm_reachable s : reachable s -> NoDupEm s.
+Proof.
+  apply reach_P.
+  - intros s0 t i k inp s' Hn Ec H. unfold NoDupEm in *.
+    destruct i; crush_exec H; rewrite emitters_set_cont; cbn; auto using nodupE_remE.
+    apply nodupE_app_one; auto.
+  - intros s0 n c Hn Ec. exact Hn.
+  - intros s0 l s' Hn Hl H. destruct (em_step_frame _ _ _ Hl H) as [_ [_ [_ [_ [_ [_ [_ [Eem _]]]]]]]].
+    unfold NoDupEm. rewrite Eem. exact Hn.
+  - reflexivity.
+Qed.
+
+Lemma perm_ok_refl l : nodupE l = true -> perm_ok l l = true.
+Proof.
+  intros H. unfold perm_ok. rewrite Nat.eqb_refl, H, andb_true_r. simpl.
+  apply forallb_forall. intros x Hx. apply memE_In. auto.
+Qed.
+
+Lemma get_em_some s e : Nat.ltb e (length (ems s)) = true -> exists m, get_em s e = Some m.
+Proof.
+  intros H. apply Nat.ltb_lt in H. unfold get_em. destruct (nth_error (ems s) e) eqn:E; eauto.
+  apply nth_error_None in E. lia.
+Qed.
+
+Theorem enabled_sound s t : reachable s -> thread_enabled s t = true -> exists l s', step s l = Some s'.
+Proof.
+  intros Hs Hen.
+  destruct (P3_reachable s Hs) as [[_ [HLB _]] [_ HD]].
+  pose proof (EmRef_reachable s Hs) as [HRef _].
+  pose proof (NoDupEm_reachable s Hs) as Hnd.
+  unfold thread_enabled in Hen. destruct (cont s t) as [|i k] eqn:Ec; try discriminate.
+  assert (Hstep : forall inp s1, (forall h calls, inp = InTurn h calls -> t = TD) -> exec s t i k inp = Some s1 ->
+            exists l s', step s l = Some s').
+  { intros inp s1 Ht E. destruct inp as [|order|h calls].
+    - exists (LStep t). unfold step, step_thread. rewrite Ec, E. eauto.
+    - exists (LOrd t order). unfold step, step_thread. rewrite Ec, E. eauto.
+    - rewrite (Ht h calls eq_refl) in *. exists (LTurn h calls). unfold step, step_thread. rewrite Ec, E. eauto. }
+  pose proof (HLB t) as HBt. rewrite Ec in HBt. destruct HBt as [Hw _].
+  pose proof (HRef t) as Hr. rewrite Ec in Hr. simpl in Hr. apply andb_true_iff in Hr as [Hr _]. unfold ref_ok in Hr.
+  destruct i; simpl in Hr;
+    try (destruct (get_em_some s e Hr) as [m Em]).
+  all: try (match goal with Ec' : cont ?s0 ?t0 = ?i :: ?k0 |- _ => destruct (exec s0 t0 i k0 NoIn) as [s1|] eqn:E end;
+            [eapply (Hstep NoIn); eauto; intros; discriminate |];
+            exfalso; simpl in E; rewrite ?Em in E;
+            repeat (match type of E with context [match ?x with _ => _ end] => destruct x eqn:? end);
+            try discriminate; fail).
+  - (* IRel *) destruct (held s t) eqn:Eh; [simpl in Hw; discriminate|].
+    destruct (held_pos_owner s t) as [n' [El En]]; [congruence|].
+    eapply (Hstep NoIn); [intros; discriminate|]. simpl. rewrite El. rewrite En in Eh. subst n'. rewrite tid_eqb_refl. eauto.
+  - (* IEmJoin *) rewrite Em in Hen.
+    destruct (exec s t (IEmJoin e) k NoIn) as [s1|] eqn:E; [eapply (Hstep NoIn); eauto; intros; discriminate|].
+    exfalso. simpl in E. rewrite Em in E. apply orb_true_iff in Hen as [Hen|Hen].
+    + apply negb_true_iff in Hen. rewrite Hen in E. discriminate.
+    + rewrite Hen in E. destruct (em_started m); discriminate.
+  - (* IClear *) eapply (Hstep (InOrd (emitters s))); [intros; discriminate|]. simpl.
+    rewrite (perm_ok_refl _ Hnd). eauto.
+  - (* IStartCopy *)
+    destruct (exec s t IStartCopy k (InOrd (emitters s))) as [s1|] eqn:E; [eapply Hstep; eauto; intros; discriminate|].
+    exfalso. simpl in E. rewrite (perm_ok_refl _ Hnd) in E. destruct (fixed s && dstarted s); discriminate.
+  - (* DSnap *)
+    assert (t = TD) by (destruct t; auto; destruct (P3_reachable s Hs) as [_ [[_ HN] _]]; specialize (HN n); rewrite Ec in HN; discriminate).
+    subst t. simpl in Ec. unfold DlInv in HD. rewrite Ec in HD. simpl in HD.
+    destruct HD as [[Hi _] | [[E HD] | [[E _] | [E _]]]];
+      [destruct Hi as [Hi|[Hi|[Hi|Hi]]]; discriminate | | discriminate | discriminate].
+    destruct HD as [e [w [ds' [_ [Ecur _]]]]].
+    eapply (Hstep NoIn); [intros; discriminate|]. simpl. rewrite Ecur. eauto.
+  - (* DTurns *)
+    assert (t = TD) by (destruct t; auto; destruct (P3_reachable s Hs) as [_ [[_ HN] _]]; specialize (HN n); rewrite Ec in HN; discriminate).
+    subst t. simpl in Ec. unfold DlInv in HD. rewrite Ec in HD. simpl in HD.
+    destruct HD as [[Hi _] | [[E _] | [[E HD] | [E _]]]];
+      [destruct Hi as [Hi|[Hi|[Hi|Hi]]]; discriminate | discriminate | | discriminate].
+    destruct HD as [r [ds' [hs [_ [Ecur _]]]]].
+    destruct (dtodo s) as [|h l] eqn:Et.
+    + eapply (Hstep NoIn); [intros; discriminate|]. simpl. rewrite Et. eauto.
+    + destruct (exec s TD DTurns k (InTurn h [])) as [s1|] eqn:EE; [eapply Hstep; eauto|].
+      exfalso. simpl in EE. rewrite Et, Ecur in EE. unfold memN at 1 in EE. simpl in EE. rewrite N.eqb_refl in EE. simpl in EE.
+      destruct (memN h (hset (rw r) (hauto (rw r) (handlers s)))); discriminate.
+Qed.
+
+(* any_enabled is sound: then some label is enabled *)
+Theorem any_enabled_sound s : reachable s -> any_enabled s = true -> exists l s', step s l = Some s'.
+Proof.
+  intros Hs H. unfold any_enabled in H. apply orb_true_iff in H as [H|H].
+  - apply existsb_exists in H as [t [_ Ht]]. eapply enabled_sound; eauto.
+  - apply existsb_exists in H as [m [Hin Hr]]. apply In_nth_error in Hin as [e He].
+    destruct (emitter_never_blocked s e m He Hr) as [l [s' [_ Hstep]]]. eauto.
+Qed.
+
+(* stated the other way round: a stuck thread always coexists with an enabled one *)
+Corollary stuck_implies_progress s t : reachable s -> In t (all_tids s) -> thread_stuck s t = true ->
+  exists l s', step s l = Some s'.
+Proof.
+  intros Hs Hin Hst. apply any_enabled_sound; auto.
+  pose proof (no_deadlock s Hs) as Hd. unfold deadlocked in Hd.
+  destruct (any_enabled s); auto. cbn [negb andb] in Hd.
+  assert (Hx : existsb (thread_stuck s) (all_tids s) = true) by (apply existsb_exists; eauto).
+  rewrite Hx in Hd. discriminate.
+Qed.
+
+(* ------------------------------------------------------------------ C06 (ii): the dispatcher's remaining loop steps *)
+Definition hcount (s : state) (w : watch) : nat := length (hset w (handlers s)).
+
+(* remaining own loop steps of the dispatcher thread once its stop flag is set: a function of the state *)
+Definition dbound (s : state) : nat :=
+  match dcont s with
+  | [] => 0
+  | [DExitI] => 1
+  | [DCheck] => 2
+  | [DGet] => match queue s with
+              | [] => 0
+              | QStop :: _ => 3
+              | QEv e w :: _ => 9 + hcount s w
+              end
+  | _ =>
+      match after_d (dcont s), dcur s with
+      | [DSnap; DTurns; IRel; DTaskDone; DCheck], Some (e, w) =>
+          (match dcont s with IAcq :: _ => 8 | _ => 7 end) + hcount s w
+      | [DTurns; IRel; DTaskDone; DCheck], _ => 6 + length (dtodo s)
+      | [DTaskDone; DCheck], _ => match dcont s with IRel :: _ => 4 | _ => 3 end
+      | _, _ => 0
+      end
+  end.
+
+(* the dispatcher's own loop instructions: the dispatch-loop instructions and the acquire / release of the
+   dispatch itself (not those of callbacks) *)
+Definition loop_step (i : instr) (k : list instr) : bool :=
+  is_d i || match i, k with
+            | IAcq, [DSnap; DTurns; IRel; DTaskDone; DCheck] => true
+            | IRel, [DTaskDone; DCheck] => true
+            | _, _ => false
+            end.
+
+Lemma filter_len_le {A} (f : A -> bool) l : length (filter f l) <= length l.
+Proof. induction l as [|a l IH]; simpl; auto. destruct (f a); simpl; lia. Qed.
+
+Lemma length_remN_lt h l : In h l -> length (remN h l) < length l.
+Proof.
+  unfold remN. induction l as [|a l IH]; simpl; [tauto|]. intros [->|Hin].
+  - rewrite N.eqb_refl. simpl. pose proof (filter_len_le (fun y => negb (N.eqb h y)) l). lia.
+  - pose proof (filter_len_le (fun y => negb (N.eqb h y)) l). apply IH in Hin.
+    destruct (negb (N.eqb h a)); simpl; lia.
+Qed.
+
+Lemma dbound_F2 s : after_d (dcont s) = F2 -> dbound s = 6 + length (dtodo s).
+Proof.
+  unfold dbound, F2. intros H. destruct (dcont s) as [|i l]; [discriminate|].
+  destruct i; destruct l; simpl in H |- *; try discriminate; rewrite ?H; try reflexivity;
+    try (inversion H; subst; reflexivity).
+Qed.
+Lemma dbound_F3 s : after_d (dcont s) = F3 -> dbound s = match dcont s with IRel :: _ => 4 | _ => 3 end.
+Proof.
+  unfold dbound, F3. intros H. destruct (dcont s) as [|i l]; [discriminate|].
+  destruct i; destruct l; simpl in H |- *; try discriminate; rewrite ?H; try reflexivity;
+    try (inversion H; subst; reflexivity).
+Qed.
+Lemma dbound_F1 s e w : after_d (dcont s) = F1 -> dcur s = Some (e, w) ->
+  dbound s = (match dcont s with IAcq :: _ => 8 | _ => 7 end) + hcount s w.
+Proof.
+  unfold dbound, F1. intros H Hc. destruct (dcont s) as [|i l]; [discriminate|].
+  destruct i; destruct l; simpl in H |- *; try discriminate; rewrite ?H, ?Hc; try reflexivity;
+    try (inversion H; subst; rewrite ?Hc; reflexivity).
+Qed.
+
+Lemma loop_acq_shape k :
+  match k with [DSnap; DTurns; IRel; DTaskDone; DCheck] => true | _ => false end = true -> k = F1.
+Proof.
+  intros H.
+  destruct k as [|a k]; try discriminate; destruct a; try discriminate.
+  destruct k as [|a k]; try discriminate; destruct a; try discriminate.
+  destruct k as [|a k]; try discriminate; destruct a; try discriminate.
+  destruct k as [|a k]; try discriminate; destruct a; try discriminate.
+  destruct k as [|a k]; try discriminate; destruct a; try discriminate.
+  destruct k; try discriminate. reflexivity.
+Qed.
+Lemma loop_rel_shape k : match k with [DTaskDone; DCheck] => true | _ => false end = true -> k = F3.
+Proof.
+  intros H.
+  destruct k as [|a k]; try discriminate; destruct a; try discriminate.
+  destruct k as [|a k]; try discriminate; destruct a; try discriminate.
+  destruct k; try discriminate. reflexivity.
+Qed.
+
+Local Opaque remN.
+Theorem dispatcher_loop_bounded s i k inp s' : P3 s -> dstop s = true -> dcont s = i :: k ->
+  loop_step i k = true -> exec s TD i k inp = Some s' -> dbound s' < dbound s.
+Proof.
+  intros [HL [_ HD]] Hst Ec Hloop H.
+  destruct HL as [_ [HLB _]]. pose proof (HLB TD) as HB. simpl in HB. rewrite Ec in HB. destruct HB as [_ [_ Hlast]].
+  unfold loop_step in Hloop. destruct (is_d i) eqn:Hd.
+  - assert (Ea : after_d (dcont s) = i :: k) by (rewrite Ec; simpl; rewrite Hd; reflexivity).
+    unfold DlInv in HD. rewrite Ea in HD.
+    destruct i; simpl in Hd; try discriminate; simpl in H.
+    + (* DCheck *) assert (k = []) by (eapply last_only_terminal; eauto). subst k.
+      rewrite Hst in H. inversion H; subst. unfold dbound. simpl. rewrite Ec. lia.
+    + (* DExitI *) assert (k = []) by (eapply last_only_terminal; eauto). subst k.
+      inversion H; subst. unfold dbound. simpl. rewrite Ec. lia.
+    + (* DGet *) assert (k = []) by (eapply last_only_terminal; eauto). subst k.
+      destruct (queue s) as [|[e w|] q] eqn:Eq; try discriminate; inversion H; subst; unfold dbound; simpl; rewrite Ec, Eq.
+      * unfold hcount. simpl. lia.
+      * lia.
+    + (* DSnap *) destruct HD as [[Hi _] | [[E HD] | [[E _] | [E _]]]];
+        [destruct Hi as [Hi|[Hi|[Hi|Hi]]]; discriminate | | discriminate | discriminate].
+      inversion E; subst. destruct HD as [e [w [ds' [_ [Ecur _]]]]]. rewrite Ecur in H. inversion H; subst.
+      unfold dbound. simpl. rewrite Ec, Ecur. simpl. unfold hcount. rewrite hset_hauto. lia.
+    + (* DTurns *) destruct HD as [[Hi _] | [[E _] | [[E HD] | [E _]]]];
+        [destruct Hi as [Hi|[Hi|[Hi|Hi]]]; discriminate | discriminate | | discriminate].
+      inversion E; subst. destruct HD as [r [ds' [hs [_ [Ecur _]]]]]. rewrite Ecur in H.
+      destruct (dtodo s) as [|h0 todo] eqn:Et.
+      * inversion H; subst. unfold dbound. simpl. rewrite Ec, Et. simpl. lia.
+      * destruct inp as [| |h calls]; try discriminate.
+        destruct (memN h (h0 :: todo)) eqn:Em; try discriminate. apply memN_In in Em.
+        pose proof (length_remN_lt h (h0 :: todo) Em) as Hlt.
+        assert (Hs0 : dbound s = 6 + length (h0 :: todo)) by (rewrite <- Et; apply dbound_F2; rewrite Ec; reflexivity).
+        rewrite Hs0.
+        destruct (memN h (hset (rw r) (hauto (rw r) (handlers s)))); inversion H; subst;
+          rewrite dbound_F2 by (simpl; rewrite ?after_d_app by fb_solve; reflexivity);
+          cbn [dtodo set_dcont say set_dtodo set_handlers set_glog]; apply (proj1 (Nat.add_lt_mono_l _ _ 6)); exact Hlt.
+    + (* DTaskDone *) destruct HD as [[Hi _] | [[E _] | [[E _] | [E _]]]];
+        [destruct Hi as [Hi|[Hi|[Hi|Hi]]]; discriminate | discriminate | discriminate | ].
+      inversion E; subst. inversion H; subst. unfold dbound. simpl. rewrite Ec. simpl. lia.
+  - simpl in Hloop. destruct i; try discriminate.
+    + (* the dispatch's own acquire *)
+      apply loop_acq_shape in Hloop. subst k. unfold F1 in *.
+      unfold DlInv in HD. rewrite Ec in HD. simpl in HD.
+      destruct HD as [[Hi _] | [[E HD] | [[E _] | [E _]]]];
+        [destruct Hi as [Hi|[Hi|[Hi|Hi]]]; discriminate | | discriminate | discriminate].
+      destruct HD as [e [w [ds' [_ [Ecur _]]]]].
+      simpl in H. destruct (lock s) as [[o n]|]; [destruct (tid_eqb o TD); try discriminate|]; inversion H; subst;
+        unfold dbound; simpl; rewrite Ec, Ecur; simpl; unfold hcount; simpl; lia.
+    + (* the dispatch's own release *)
+      apply loop_rel_shape in Hloop. subst k. unfold F3 in *.
+      simpl in H. destruct (lock s) as [[o [|n]]|]; try discriminate. destruct (tid_eqb o TD); try discriminate.
+      inversion H; subst. unfold dbound. simpl. rewrite Ec. simpl. lia.
+Qed.
